@@ -216,7 +216,12 @@ func H_C18_letGlobal() {
 //
 //gosym:reach rendered,unknown
 func H_C18_yieldBlock() {
-	withCtx := ndBool("ctx")
+	ctxKind := ndChoice("ctx", 3) // 0 no context, 1 an int, 2 (round 8) a typed nil: a nil map is a context like any other
+	withCtx := ctxKind != 0
+	var ctxVal interface{} = 7
+	if ctxKind == 2 {
+		ctxVal = map[string]int(nil)
+	}
 	known := ndBool("known")
 	log := &hxLog{}
 	name := "b"
@@ -240,12 +245,12 @@ func H_C18_yieldBlock() {
 	)
 	mk := func() VarMap {
 		vars := make(VarMap)
-		vars.Set("ctxv", 7)
+		vars.Set("ctxv", ctxVal)
 		vars.Set("one", []int{1})
 		vars.SetFunc("count", log.probe("body", ""))
 		vars.SetFunc("y", func(a Arguments) reflect.Value {
 			if withCtx {
-				a.Runtime().YieldBlock(name, 7)
+				a.Runtime().YieldBlock(name, ctxVal)
 			} else {
 				a.Runtime().YieldBlock(name, nil)
 			}
